@@ -285,8 +285,17 @@ func (m modeT) line() string {
 	return fmt.Sprintf("mode %s %d %s %s", m.kind, m.ttl, orDash(m.v4), orDash(m.v6))
 }
 
+func (m modeT) srvLine() string {
+	return fmt.Sprintf("srv %s %d %s %s", m.kind, m.ttl, orDash(m.v4), orDash(m.v6))
+}
+
 func genMode(rng *rand.Rand, allowIllFormed bool) modeT {
 	m := modeT{kind: pick(rng, []string{"null", "nx", "ref", "cip", "cip"}), ttl: pick(rng, []int{10, 30, 3600, 0, 1})}
+	if allowIllFormed && rng.IntN(14) == 0 {
+		// A negative TTL: no constructor can be made for the profile, the
+		// server's stays in place.
+		m.ttl = -5
+	}
 	if m.kind == "cip" {
 		switch rng.IntN(4) {
 		case 0:
@@ -311,15 +320,87 @@ func genMode(rng *rand.Rand, allowIllFormed bool) modeT {
 	return m
 }
 
+// cfgT is a filter configuration as the backend would send it: individual
+// switches, master switches, a pause schedule, IDs that may be unknown to the
+// storage.  After effective() the master switches have been applied and what
+// remains is what the documentation says is in force (hasCust, lists, svcs and
+// the five request-filter flags).
 type cfgT struct {
-	custom  []rule // nil = no custom filter
-	hasCust bool
-	lists   []int
-	svcs    []int
-	sb, ad  bool
-	gss     bool
-	yss     bool
-	nr      bool
+	custom   []rule
+	hasCust  bool // custom rules enabled (and, after effective(), non-empty)
+	isClient bool
+	lists    []int
+	svcs     []int
+	sb, ad   bool
+	gss      bool
+	yss      bool
+	nr       bool
+	// Master switches and the pause schedule.
+	parentalOn bool
+	pause      int // 0 none; 1,2 schedules containing the fixed clock; 3,4,5 schedules not containing it
+	rlOn       bool
+	sbOn       bool
+}
+
+// fixedNow is what the storage's clock says: Wednesday 2024-01-03 12:00 UTC.
+var fixedNow = time.Date(2024, 1, 3, 12, 0, 0, 0, time.UTC)
+
+type fixedClock struct{}
+
+func (fixedClock) Now() time.Time { return fixedNow }
+
+func (c cfgT) paused() bool { return c.pause == 1 || c.pause == 2 }
+
+func (c cfgT) schedule() *filter.ConfigSchedule {
+	if c.pause == 0 {
+		return nil
+	}
+	w := &filter.WeeklySchedule{}
+	wd := int(fixedNow.Weekday())
+	switch c.pause {
+	case 1:
+		w[wd] = &filter.DayInterval{Start: 700, End: 800}
+	case 2:
+		w[wd] = &filter.DayInterval{Start: 720, End: 721} // inclusive start
+	case 3:
+		w[wd] = &filter.DayInterval{Start: 0, End: 720} // exclusive end
+	case 4:
+		w[(wd+1)%7] = &filter.DayInterval{Start: 0, End: 1440}
+		w[(wd+6)%7] = &filter.DayInterval{Start: 0, End: 1440}
+	default:
+		w[wd] = &filter.DayInterval{}
+	}
+	return &filter.ConfigSchedule{Week: w, TimeZone: &agdtime.Location{Location: *time.UTC}}
+}
+
+// effective applies the documented meaning of the master switches: a disabled
+// group of settings contributes nothing, parental control is off inside its
+// pause schedule, IDs the storage does not know are skipped, custom rules
+// count only for a client configuration with the custom filter enabled.
+func (c cfgT) effective(u *universe) cfgT {
+	e := cfgT{isClient: c.isClient, parentalOn: true, rlOn: true, sbOn: true}
+	if c.isClient && c.hasCust && len(c.custom) > 0 {
+		e.hasCust, e.custom = true, c.custom
+	}
+	if c.rlOn {
+		for _, l := range c.lists {
+			if l < len(u.lists) {
+				e.lists = append(e.lists, l)
+			}
+		}
+	}
+	if c.parentalOn && !c.paused() {
+		e.ad, e.gss, e.yss = c.ad, c.gss, c.yss
+		for _, sv := range c.svcs {
+			if sv < len(u.svcs) {
+				e.svcs = append(e.svcs, sv)
+			}
+		}
+	}
+	if c.sbOn {
+		e.sb, e.nr = c.sb, c.nr
+	}
+	return e
 }
 
 func idxCSV(prefix string, xs []int) string {
@@ -387,6 +468,12 @@ func genUniverse(rng *rand.Rand) *universe {
 	u.yss = genList(rng, "ss", 3)
 	hs := func(repl string) hashSet {
 		h := hashSet{repl: repl}
+		switch rng.IntN(4) {
+		case 0:
+			h.repl = "203.0.113.77" // a block page address instead of a host
+		case 1:
+			h.repl = "2001:db8:bb::7"
+		}
 		for i := rng.IntN(3); i > 0; i-- {
 			h.hosts = append(h.hosts, pick(rng, domPool[:7]))
 		}
@@ -425,30 +512,45 @@ func genUniverse(rng *rand.Rand) *universe {
 	return u
 }
 
+// unknownID is an index no universe has a rule list or a service for.
+const unknownID = 9
+
 func genCfg(rng *rand.Rand, u *universe, withCustom bool) cfgT {
-	var c cfgT
+	c := cfgT{isClient: withCustom, parentalOn: rng.IntN(7) != 0, rlOn: rng.IntN(8) != 0, sbOn: rng.IntN(7) != 0}
 	if withCustom && rng.IntN(4) != 0 {
-		c.hasCust = true
 		c.custom = genList(rng, "main", 5)
-		if len(c.custom) == 0 {
-			c.hasCust = false
-		}
+		// Rules may be present while the custom filter is switched off.
+		c.hasCust = rng.IntN(6) != 0
+	}
+	if rng.IntN(5) == 0 {
+		c.pause = 1 + rng.IntN(5)
 	}
 	perm := rng.Perm(len(u.lists))
 	c.lists = perm[:rng.IntN(len(perm)+1)]
 	perm = rng.Perm(len(u.svcs))
 	c.svcs = perm[:rng.IntN(len(perm)+1)]
+	if rng.IntN(5) == 0 {
+		at := rng.IntN(len(c.lists) + 1)
+		c.lists = append(append(append([]int{}, c.lists[:at]...), unknownID), c.lists[at:]...)
+	}
+	if rng.IntN(6) == 0 {
+		at := rng.IntN(len(c.svcs) + 1)
+		c.svcs = append(append(append([]int{}, c.svcs[:at]...), unknownID), c.svcs[at:]...)
+	}
 	c.sb, c.ad, c.gss, c.yss, c.nr = rng.IntN(2) == 0, rng.IntN(2) == 0, rng.IntN(2) == 0, rng.IntN(2) == 0, rng.IntN(2) == 0
 	return c
 }
 
+// line renders the raw configuration (switches as sent, nothing applied) for
+// the model: pcfg w isClient custOn custom pOn paused ad g y svcs rlOn lists sbOn dang nr.
 func (c cfgT) line(which string, custName string) string {
 	cust := "-"
-	if c.hasCust {
+	if len(c.custom) > 0 {
 		cust = custName
 	}
-	return fmt.Sprintf("cfg %s %s %s %s %s %s %s %s %s", which, cust, idxCSV("l", c.lists), idxCSV("s", c.svcs),
-		b01(c.sb), b01(c.ad), b01(c.gss), b01(c.yss), b01(c.nr))
+	return fmt.Sprintf("pcfg %s %s %s %s %s %s %s %s %s %s %s %s %s %s %s", which, b01(c.isClient), b01(c.hasCust), cust,
+		b01(c.parentalOn), b01(c.paused()), b01(c.ad), b01(c.gss), b01(c.yss), idxCSV("s", c.svcs),
+		b01(c.rlOn), idxCSV("l", c.lists), b01(c.sbOn), b01(c.sb), b01(c.nr))
 }
 
 func (u *universe) modelLines() []string {
@@ -472,7 +574,7 @@ func (u *universe) modelLines() []string {
 		}
 		ls = append(ls, fmt.Sprintf("up %s %s %d %s %d", parts[0], parts[1], a.rcode, orDash(rrs), a.ns))
 	}
-	ls = append(ls, u.grp.line("g", "-"))
+	ls = append(ls, u.grp.line("g", "-"), u.gmode.srvLine())
 	return ls
 }
 
@@ -481,15 +583,16 @@ type errColl struct{ errs []error }
 func (e *errColl) Collect(_ context.Context, err error) { e.errs = append(e.errs, err) }
 
 func (u *universe) filterConfig(c cfgT, profID string) (p *filter.ConfigParental, rl *filter.ConfigRuleList, sbc *filter.ConfigSafeBrowsing, cust *filter.ConfigCustom) {
-	p = &filter.ConfigParental{Enabled: true, AdultBlockingEnabled: c.ad, SafeSearchGeneralEnabled: c.gss, SafeSearchYouTubeEnabled: c.yss}
+	p = &filter.ConfigParental{Enabled: c.parentalOn, PauseSchedule: c.schedule(), AdultBlockingEnabled: c.ad,
+		SafeSearchGeneralEnabled: c.gss, SafeSearchYouTubeEnabled: c.yss}
 	for _, s := range c.svcs {
 		p.BlockedServices = append(p.BlockedServices, filter.BlockedServiceID("svc_"+strconv.Itoa(s)))
 	}
-	rl = &filter.ConfigRuleList{Enabled: true}
+	rl = &filter.ConfigRuleList{Enabled: c.rlOn}
 	for _, l := range c.lists {
 		rl.IDs = append(rl.IDs, filter.ID("list_"+strconv.Itoa(l)))
 	}
-	sbc = &filter.ConfigSafeBrowsing{Enabled: true, DangerousDomainsEnabled: c.sb, NewlyRegisteredDomainsEnabled: c.nr}
+	sbc = &filter.ConfigSafeBrowsing{Enabled: c.sbOn, DangerousDomainsEnabled: c.sb, NewlyRegisteredDomainsEnabled: c.nr}
 	cust = &filter.ConfigCustom{ID: profID, UpdateTime: time.Unix(1700000000, 0), Enabled: c.hasCust}
 	for _, r := range c.custom {
 		cust.Rules = append(cust.Rules, filter.RuleText(r.text()))
@@ -583,7 +686,7 @@ func (u *universe) build(rng *rand.Rand) {
 			IndexRefreshTimeout: 5 * time.Second, IndexStaleness: time.Hour, RefreshTimeout: 5 * time.Second, Staleness: time.Hour,
 			ResultCacheCount: 100, ResultCacheEnabled: true},
 		SafeSearchGeneral: ss("gss", filter.IDGeneralSafeSearch), SafeSearchYouTube: ss("yss", filter.IDYoutubeSafeSearch),
-		CacheManager: agdcache.EmptyManager{}, Clock: agdtime.SystemClock{}, ErrColl: ec, Metrics: filter.EmptyMetrics{},
+		CacheManager: agdcache.EmptyManager{}, Clock: fixedClock{}, ErrColl: ec, Metrics: filter.EmptyMetrics{},
 		CacheDir: u.dir,
 	})
 	hlib.Must(err)
@@ -722,6 +825,10 @@ func verdictString(res filter.Result) string {
 	case *filter.ResultModifiedRequest:
 		return "modreq " + shortID(v.List, v.Rule) + " " + strings.TrimSuffix(v.Msg.Question[0].Name, ".")
 	case *filter.ResultModifiedResponse:
+		switch v.List {
+		case filter.IDSafeBrowsing, filter.IDAdultBlocking, filter.IDNewRegDomains:
+			return "modmsg " + shortID(v.List, v.Rule) + " " + msgString(v.Msg, nil)
+		}
 		var vals []string
 		for _, rr := range v.Msg.Answer {
 			vals = append(vals, rrVal(rr))
@@ -773,7 +880,7 @@ func msgString(m *dns.Msg, up *dns.Msg) string {
 		if isUp(rr) {
 			ans = append(ans, fmt.Sprintf("%d:^:%s:%d:u", h.Rrtype, rrVal(rr), h.Ttl))
 		} else {
-			ans = append(ans, fmt.Sprintf("%d:%s:%s:%d:s", h.Rrtype, strings.TrimSuffix(h.Name, "."), rrVal(rr), h.Ttl))
+			ans = append(ans, fmt.Sprintf("%d:%s:%s:%d:s", h.Rrtype, strings.ToLower(strings.TrimSuffix(h.Name, ".")), rrVal(rr), h.Ttl))
 		}
 	}
 	soa, upNs := "-", 0
@@ -867,7 +974,7 @@ type expectation struct {
 // reqFilterExpect returns the verdict the request filters must produce, in
 // the documented order, or "" if none applies; skip is set for order-dependent
 // safe-search lists.
-func (u *universe) reqFilterExpect(c cfgT, host string, qt uint16) (exact string, skip bool) {
+func (u *universe) reqFilterExpect(c cfgT, mode modeT, host string, qt uint16) (exact string, skip bool) {
 	if !isFilterable(qt) {
 		return "", false
 	}
@@ -877,6 +984,9 @@ func (u *universe) reqFilterExpect(c cfgT, host string, qt uint16) (exact string
 		}
 		for _, d := range h.hosts {
 			if domMatch(d, host) {
+				if ip, err := netip.ParseAddr(h.repl); err == nil {
+					return "modmsg " + id + " " + expectBlockPage(mode, host, qt, ip)
+				}
 				return "modreq " + id + " " + h.repl
 			}
 		}
@@ -931,7 +1041,7 @@ func (u *universe) reqFilterExpect(c cfgT, host string, qt uint16) (exact string
 }
 
 // expectReq applies the property's clauses in their documented order.
-func (u *universe) expectReq(c cfgT, host string, qt uint16) expectation {
+func (u *universe) expectReq(c cfgT, mode modeT, host string, qt uint16) expectation {
 	rw, all := u.sources(c)
 	// Clause 1: a DNS-rewrite rule wins outright, custom first, then the shared
 	// lists in configured order.
@@ -979,7 +1089,7 @@ func (u *universe) expectReq(c cfgT, host string, qt uint16) expectation {
 			}
 		}
 	}
-	rf, rfSkip := u.reqFilterExpect(c, host, qt)
+	rf, rfSkip := u.reqFilterExpect(c, mode, host, qt)
 	if len(allows) > 0 {
 		// The deciding allow rule is the most specific one; ties go to the
 		// earliest source (custom first).
@@ -1067,25 +1177,100 @@ func expectBlockedShape(m modeT, host string, qt uint16) string {
 	return nodata
 }
 
+// expectBlockPage is the documented answer of a safety filter that is
+// configured with a block-page address: the address for a query of its family,
+// the requester's blocked shape for HTTPS, NODATA otherwise; all with the
+// requester's TTL.
+func expectBlockPage(m modeT, host string, qt uint16, ip netip.Addr) string {
+	nodata := fmt.Sprintf("0 - %d 0", m.ttl)
+	switch {
+	case qt == 65:
+		switch m.kind {
+		case "nx":
+			return fmt.Sprintf("3 - %d 0", m.ttl)
+		case "ref":
+			return fmt.Sprintf("5 - %d 0", m.ttl)
+		}
+		return nodata
+	case qt == 1 && ip.Is4():
+		return fmt.Sprintf("0 1:%s:%s:%d:s - 0", host, ip, m.ttl)
+	case qt == 28 && ip.Is6():
+		return fmt.Sprintf("0 28:%s:%s:%d:s - 0", host, ip, m.ttl)
+	}
+	return nodata
+}
+
+// expectResp applies the documented precedence to the answer records of a
+// response, independently of the model: per record (address or CNAME target)
+// an allow rule of any source beats every block rule, a block or hosts rule
+// blocks; the first record with a verdict decides; rewrites never apply.
+func (u *universe) expectResp(c cfgT, answers []dns.RR) expectation {
+	_, all := u.sources(c)
+	for _, rr := range answers {
+		t := rr.Header().Rrtype
+		if t != 1 && t != 28 && t != 5 {
+			continue
+		}
+		val := rrVal(rr)
+		var allows, blocks []string
+		for _, s := range all {
+			for _, r := range s.rules {
+				if (r.kind == "a" || r.kind == "b") && domMatch(r.dom, val) && selOK(r.sel, t) {
+					if r.kind == "a" {
+						allows = append(allows, s.id)
+					} else {
+						blocks = append(blocks, s.id)
+					}
+				}
+				if (r.kind == "h4" || r.kind == "h6") && r.dom == val {
+					blocks = append(blocks, s.id)
+				}
+			}
+		}
+		switch {
+		case len(allows) > 0:
+			return expectation{clause: "resp-allow-beats-block", kinds: []string{"allow"}, lists: allows}
+		case len(blocks) > 0:
+			return expectation{clause: "resp-block-blocks", kinds: []string{"block"}, lists: blocks}
+		}
+	}
+	return expectation{clause: "resp-nothing", exact: "none"}
+}
+
 // ---------------------------------------------------------------------------
 // Campaigns
 
 type query struct {
-	host string
+	host string // normalised
 	qt   uint16
+	wire string // as spelled in the question (0x20-style mixed case)
+}
+
+func mixCase(rng *rand.Rand, s string) string {
+	b := []byte(s)
+	for i := range b {
+		if b[i] >= 'a' && b[i] <= 'z' && rng.IntN(2) == 0 {
+			b[i] -= 'a' - 'A'
+		}
+	}
+	return string(b)
 }
 
 func genQueries(rng *rand.Rand, n int) []query {
 	qs := make([]query, 0, n)
 	seen := map[query]bool{}
 	for len(qs) < n {
-		q := query{pick(rng, hostPool), pick(rng, qtypes)}
+		q := query{host: pick(rng, hostPool), qt: pick(rng, qtypes)}
+		q.wire = q.host
 		if seen[q] {
 			if rng.IntN(4) != 0 {
 				continue
 			}
 		}
 		seen[q] = true
+		if rng.IntN(6) == 0 {
+			q.wire = mixCase(rng, q.host)
+		}
 		qs = append(qs, q)
 	}
 	return qs
@@ -1115,14 +1300,18 @@ func (u *universe) listTexts(c cfgT) map[string][]string {
 			out[name] = append(out[name], r.text())
 		}
 	}
-	if c.hasCust {
+	if len(c.custom) > 0 {
 		add("custom", c.custom)
 	}
 	for _, l := range c.lists {
-		add("l"+strconv.Itoa(l), u.lists[l])
+		if l < len(u.lists) {
+			add("l"+strconv.Itoa(l), u.lists[l])
+		}
 	}
 	for _, s := range c.svcs {
-		add("s"+strconv.Itoa(s), u.svcs[s])
+		if s < len(u.svcs) {
+			add("s"+strconv.Itoa(s), u.svcs[s])
+		}
 	}
 	add("gss", u.gss)
 	add("yss", u.yss)
@@ -1149,20 +1338,34 @@ func runUniverse(o *hlib.Opts, r *hlib.Result, m *hlib.Model, rng *rand.Rand, nC
 		which := "p"
 		var clines []string
 		sw := [3]bool{true, true, true}
+		// profMode is what the profile is configured with; mode is the
+		// requester's own constructor as documented: the profile's, or the
+		// server's for an anonymous requester and for a profile from which no
+		// constructor can be made (negative TTL).
+		var profMode modeT
 		if isGroup {
 			c, mode, which = u.grp, u.gmode, "g"
 			flt = u.strg.ForConfig(ctx, u.groupConfig(c))
 			sw[0] = false
 		} else {
 			c = genCfg(rng, u, true)
-			mode = genMode(rng, true)
-			clines = append(clines, strings.TrimSpace("list c0 "+toks(c.custom)), c.line("p", "c0"))
+			profMode = genMode(rng, true)
+			mode = profMode
+			if profMode.ttl < 0 {
+				mode = u.gmode
+				r.Count("profile-negative-ttl")
+			}
+			clines = append(clines, strings.TrimSpace("list c0 "+toks(c.custom)), c.line("p", "c0"), profMode.line())
 			flt = u.strg.ForConfig(ctx, u.clientConfig(c, profID))
 			if rng.IntN(6) == 0 {
 				sw[1+rng.IntN(2)] = false
 			}
 		}
-		clines = append(clines, mode.line(), fmt.Sprintf("sw %s %s %s", b01(sw[0]), b01(sw[1]), b01(sw[2])))
+		eff := c.effective(u)
+		if !c.parentalOn || c.paused() || !c.rlOn || !c.sbOn || (len(c.custom) > 0 && !c.hasCust) {
+			r.Count("cfg-some-master-switch-off")
+		}
+		clines = append(clines, fmt.Sprintf("sw %s %s %s", b01(sw[0]), b01(sw[1]), b01(sw[2])))
 		msgs, err := dnsmsg.NewConstructor(&dnsmsg.ConstructorConfig{Cloner: cloner, BlockingMode: mode.build(),
 			StructuredErrors: agdtest.NewSDEConfig(true), FilteredResponseTTL: time.Duration(mode.ttl) * time.Second, EDEEnabled: true})
 		hlib.Must(err)
@@ -1171,8 +1374,8 @@ func runUniverse(o *hlib.Opts, r *hlib.Result, m *hlib.Model, rng *rand.Rand, nC
 		if !isGroup {
 			dev := &agd.Device{Auth: &agd.AuthSettings{PasswordHash: agdpasswd.AllowAuthenticator{}}, ID: agd.DeviceID("dev" + strconv.Itoa(profSeq)),
 				LinkedIP: remote, FilteringEnabled: sw[2]}
-			prof := &agd.Profile{FilterConfig: u.clientConfig(c, profID), Access: access.EmptyProfile{}, BlockingMode: mode.build(), Ratelimiter: agd.GlobalRatelimiter{},
-				ID: agd.ProfileID(profID), DeviceIDs: []agd.DeviceID{dev.ID}, FilteredResponseTTL: time.Duration(mode.ttl) * time.Second,
+			prof := &agd.Profile{FilterConfig: u.clientConfig(c, profID), Access: access.EmptyProfile{}, BlockingMode: profMode.build(), Ratelimiter: agd.GlobalRatelimiter{},
+				ID: agd.ProfileID(profID), DeviceIDs: []agd.DeviceID{dev.ID}, FilteredResponseTTL: time.Duration(profMode.ttl) * time.Second,
 				FilteringEnabled: sw[1], QueryLogEnabled: true}
 			u.profMu.Lock()
 			u.profs[remote] = &profEntry{prof, dev}
@@ -1195,14 +1398,14 @@ func runUniverse(o *hlib.Opts, r *hlib.Result, m *hlib.Model, rng *rand.Rand, nC
 		var observed []obs
 		for _, q := range qs {
 			// (a) verdicts straight from the composite filter.
-			res, ferr := flt.FilterRequest(ctx, &filter.Request{DNS: newReq(q.host, q.qt), Messages: msgs, RemoteIP: remote,
+			res, ferr := flt.FilterRequest(ctx, &filter.Request{DNS: newReq(q.wire, q.qt), Messages: msgs, RemoteIP: remote,
 				Host: q.host, QType: q.qt, QClass: dns.ClassINET})
 			reqV := verdictString(res)
 			if ferr != nil {
 				reqV = "error " + ferr.Error()
 			}
-			ops = append(ops, fmt.Sprintf("req %s %s %d", which, q.host, q.qt))
-			observed = append(observed, obs{kind: "req", real: reqV, q: q, exp: u.expectReq(c, q.host, q.qt)})
+			ops = append(ops, fmt.Sprintf("req %s %s %d", which, q.wire, q.qt))
+			observed = append(observed, obs{kind: "req", real: reqV, q: q, exp: u.expectReq(eff, mode, q.host, q.qt)})
 
 			// Response filtering of what upstream says for this name.
 			upMsg := u.upstreamReply(newReq(q.host, q.qt))
@@ -1221,17 +1424,20 @@ func runUniverse(o *hlib.Opts, r *hlib.Result, m *hlib.Model, rng *rand.Rand, nC
 				respV = "error " + perr.Error()
 			}
 			ops = append(ops, fmt.Sprintf("resp %s %s", which, orDash(ansToks)))
-			observed = append(observed, obs{kind: "resp", real: respV, q: q, ansLine: orDash(ansToks)})
+			observed = append(observed, obs{kind: "resp", real: respV, q: q, ansLine: orDash(ansToks), exp: u.expectResp(eff, upMsg.Answer)})
 
 			// (b) the whole middleware stack.
 			u.lastUp = nil
-			out := u.st.Serve(ctx, &stack.Req{Server: u.st.Servers[0], Msg: newReq(q.host, q.qt),
+			out := u.st.Serve(ctx, &stack.Req{Server: u.st.Servers[0], Msg: newReq(q.wire, q.qt),
 				Remote: netip.AddrPortFrom(remote, 5353), Local: netip.MustParseAddrPort("192.0.2.2:53")})
 			real := msgString(out.Resp, u.lastUp)
 			if out.Err != nil {
 				real = "error " + out.Err.Error()
 			}
-			ops = append(ops, fmt.Sprintf("mw %s %d", q.host, q.qt))
+			ops = append(ops, fmt.Sprintf("mw %s %d", q.wire, q.qt))
+			if q.wire != q.host {
+				r.Count("query-mixed-case")
+			}
 			observed = append(observed, obs{kind: "mw", real: real, q: q, reqV: reqV, respV: respV, upReply: u.lastUp, upName: u.upName})
 		}
 
@@ -1275,8 +1481,16 @@ func runUniverse(o *hlib.Opts, r *hlib.Result, m *hlib.Model, rng *rand.Rand, nC
 				}
 			case "resp":
 				r.Count("resp-" + strings.Fields(ob.real)[0])
+				r.Count("clause-" + ob.exp.clause)
 				if strings.HasPrefix(ob.real, "mod") {
 					r.Violate("response-rewritten", fmt.Sprintf("response filtering of %s returned a rewrite: %s", ob.ansLine, ob.real), mk(ob.real, "", "no rewrite"))
+				} else if !ob.exp.admits(ob.real) {
+					want := ob.exp.exact
+					if want == "" {
+						want = fmt.Sprintf("%v from %v", ob.exp.kinds, ob.exp.lists)
+					}
+					r.Violate("response-"+ob.exp.clause, fmt.Sprintf("answers %s of %s/%d: documented precedence requires %s, the real filter returned %q",
+						ob.ansLine, ob.q.host, ob.q.qt, want, ob.real), mk(ob.real, "", want))
 				}
 				mv, _ := normVerdict(answers[i])
 				if mv != ob.real {
@@ -1367,6 +1581,16 @@ func (u *universe) oracleMW(r *hlib.Result, q query, mode modeT, filteringOn boo
 				r.Violate("rewrite-ttl", fmt.Sprintf("query %s/%d rewritten: record %s does not carry the profile TTL %d", q.host, q.qt, a, mode.ttl), mk(real, "", ""))
 			}
 		}
+	case rk == "modmsg":
+		r.Count("mw-safety-block-page")
+		if q.qt == 65 {
+			r.Count("mw-safety-https-" + mode.kind)
+		}
+		want := strings.Join(strings.Fields(reqV)[2:], " ")
+		if real != want {
+			r.Violate("safety-answer-not-delivered", fmt.Sprintf("query %s/%d answered by a safety filter (%s) but the client got %q", q.host, q.qt, reqV, real),
+				mk(real, "", want))
+		}
 	case rk == "modreq":
 		r.Count("mw-rewritten-request")
 		target := strings.Fields(reqV)[2]
@@ -1386,6 +1610,151 @@ func (u *universe) oracleMW(r *hlib.Result, q query, mode modeT, filteringOn boo
 	}
 }
 
+// ---------------------------------------------------------------------------
+// Exhaustive small scope: every combination of what each slot says about one
+// name
+
+// gridKinds is what one slot can say about a.test: nothing, block, allow, the
+// more specific $dnstype forms, the three kinds of rewrite, a hosts line.
+var gridKinds = [][]rule{
+	{{kind: "b", dom: "unrelated.example", sel: "*"}},
+	{{kind: "b", dom: "a.test", sel: "*"}},
+	{{kind: "a", dom: "a.test", sel: "*"}},
+	{{kind: "a", dom: "a.test", sel: "=1"}},
+	{{kind: "b", dom: "a.test", sel: "=1"}},
+	{{kind: "r4", dom: "a.test", arg: "203.0.113.1"}},
+	{{kind: "rc", dom: "a.test", arg: "t1.test"}},
+	{{kind: "rr", dom: "a.test", arg: "5"}},
+	{{kind: "h4", dom: "a.test", arg: "0.0.0.0"}},
+}
+
+// runGrid enumerates custom kind x first shared list x second shared list x
+// service list x {dangerous domains on/off} x {safe search on/off}; with
+// full=false the second shared list is left out.  Every configuration is asked
+// about a.test/A, x.a.test/AAAA and a.test/TXT; the real composite filter, the
+// model and the clause oracle must agree.
+func runGrid(r *hlib.Result, m *hlib.Model, rng *rand.Rand, full bool) {
+	n := len(gridKinds)
+	u := &universe{up: map[string]upAns{}, profs: map[netip.Addr]*profEntry{}}
+	for k := 0; k < n; k++ {
+		u.lists = append(u.lists, gridKinds[k])
+		u.svcs = append(u.svcs, gridKinds[k])
+	}
+	u.gss = []rule{{kind: "rc", dom: "a.test", arg: "t2.test", alt: true}}
+	u.sb = hashSet{hosts: []string{"a.test"}, repl: "sb-repl.test"}
+	u.ad, u.nr = hashSet{repl: "ad-repl.test"}, hashSet{repl: "t1.test"}
+	u.grp = cfgT{parentalOn: true, rlOn: true, sbOn: true}
+	u.gmode = modeT{kind: "null", ttl: 10}
+	u.build(rng)
+	defer u.close()
+	ulines := u.modelLines()
+	ctx := context.Background()
+	mode := modeT{kind: "nx", ttl: 30}
+	msgs, err := dnsmsg.NewConstructor(&dnsmsg.ConstructorConfig{Cloner: cloner, BlockingMode: mode.build(),
+		StructuredErrors: agdtest.NewSDEConfig(true), FilteredResponseTTL: time.Duration(mode.ttl) * time.Second, EDEEnabled: true})
+	hlib.Must(err)
+	remote := netip.MustParseAddr("10.8.0.1")
+	qs := []query{{host: "a.test", qt: 1, wire: "a.test"}, {host: "x.a.test", qt: 28, wire: "x.a.test"}, {host: "a.test", qt: 16, wire: "a.test"}}
+
+	type pending struct {
+		c      cfgT
+		clines []string
+		ops    []string
+		real   []string
+	}
+	var batch []pending
+	flush := func() {
+		if len(batch) == 0 {
+			return
+		}
+		lines := append([]string{}, ulines...)
+		for _, p := range batch {
+			lines = append(lines, p.clines...)
+			lines = append(lines, p.ops...)
+		}
+		m.ResetLog()
+		answers := m.Batch(lines)
+		r.ModelOps += len(lines)
+		at := len(ulines)
+		for _, p := range batch {
+			at += len(p.clines)
+			nontrivial := false
+			for i, op := range p.ops {
+				q := qs[i]
+				mk := func(real, model, exp string) replay {
+					return replay{Universe: ulines, Config: p.clines, Op: op, Real: real, Model: model, Expected: exp, Lists: u.listTexts(p.c)}
+				}
+				exp := u.expectReq(p.c.effective(u), mode, q.host, q.qt)
+				r.Count("grid-clause-" + exp.clause)
+				if p.real[i] != "none" {
+					nontrivial = true
+				}
+				if !exp.admits(p.real[i]) {
+					want := exp.exact
+					if want == "" {
+						want = fmt.Sprintf("%v from %v", exp.kinds, exp.lists)
+					}
+					r.Violate("precedence-"+exp.clause, fmt.Sprintf("grid, query %s/%d: documented order requires %s, the real filter returned %q",
+						q.host, q.qt, want, p.real[i]), mk(p.real[i], "", want))
+				}
+				mv, amb := normVerdict(answers[at+i])
+				if !amb && mv != p.real[i] {
+					r.Disagree("req-verdict", fmt.Sprintf("grid %s: real %q model %q", op, p.real[i], mv), mk(p.real[i], mv, ""))
+				}
+			}
+			at += len(p.ops)
+			r.Case(strings.Join(append(append([]string{"grid"}, p.clines...), p.ops...), "\n"), nontrivial)
+			r.Traces++
+		}
+		batch = batch[:0]
+	}
+
+	k2s := []int{-1}
+	if full {
+		for k := 0; k < n; k++ {
+			k2s = append(k2s, k)
+		}
+	}
+	for kc := -1; kc < n; kc++ {
+		for k1 := 0; k1 < n; k1++ {
+			for _, k2 := range k2s {
+				if k2 == k1 {
+					continue
+				}
+				for k3 := 0; k3 < n; k3++ {
+					for flags := 0; flags < 4; flags++ {
+						c := cfgT{isClient: true, parentalOn: true, rlOn: true, sbOn: true, lists: []int{k1}, svcs: []int{k3},
+							sb: flags&1 != 0, gss: flags&2 != 0}
+						if k2 >= 0 {
+							c.lists = append(c.lists, k2)
+						}
+						if kc >= 0 {
+							c.custom, c.hasCust = gridKinds[kc], true
+						}
+						flt := u.strg.ForConfig(ctx, u.clientConfig(c, fmt.Sprintf("grid%d", kc)))
+						p := pending{c: c, clines: []string{strings.TrimSpace("list c0 " + toks(c.custom)), c.line("p", "c0"), mode.line()}}
+						for _, q := range qs {
+							res, ferr := flt.FilterRequest(ctx, &filter.Request{DNS: newReq(q.wire, q.qt), Messages: msgs, RemoteIP: remote,
+								Host: q.host, QType: q.qt, QClass: dns.ClassINET})
+							v := verdictString(res)
+							if ferr != nil {
+								v = "error " + ferr.Error()
+							}
+							p.ops = append(p.ops, fmt.Sprintf("req p %s %d", q.wire, q.qt))
+							p.real = append(p.real, v)
+						}
+						batch = append(batch, p)
+						if len(batch) >= 400 {
+							flush()
+						}
+					}
+				}
+			}
+		}
+	}
+	flush()
+}
+
 func main() {
 	o := hlib.ParseFlags()
 	r := hlib.NewResult("C02", o)
@@ -1393,7 +1762,7 @@ func main() {
 		"filterstorage, hash-prefix and safe-search filters, scripted upstream; per universe several profiles (random custom rules, ordered list " +
 		"subsets, services, switches, blocking mode) and the group; per profile ~20 (host,qtype) queries, each asked of the real composite filter " +
 		"(request and response) and of the full dnssvc handler stack; the same lines go to the Lean model; an independent Go oracle applies the " +
-		"documented clauses. Non-trivial = at least one query got a verdict; distinct = distinct (universe, config, ops) texts"
+		"documented clauses; plus an exhaustive grid: every combination of nine rule kinds (nothing, block, allow, $dnstype allow/block, rewrite to IP/CNAME/rcode, hosts line) in the custom list x a shared list (x a second shared list in the thorough tier) x a service list x dangerous-domains on/off x safe search on/off. Non-trivial = at least one query got a verdict; distinct = distinct (universe, config, ops) texts"
 	m := hlib.StartModel(o.Model, "C02")
 	defer m.Close()
 
@@ -1405,5 +1774,6 @@ func main() {
 	for i := 0; i < nU; i++ {
 		runUniverse(o, r, m, rng, nCfg, nQ)
 	}
+	runGrid(r, m, o.Rand("grid"), o.Thorough())
 	r.Finish()
 }
